@@ -146,7 +146,7 @@ def check_state(job):
                 ym = sp.convolve(dv, fv, **kw)
         except Exception:
             continue
-        if tuple(ym.shape) != oshape or not np.allclose(ym, expm.reshape(oshape), atol=1e-9):
+        if tuple(ym.shape) != oshape or not core.allclose(ym, expm.reshape(oshape), atol=1e-9):
             out.append((["C08"], "value_mixed", "convolve with %s neither raised nor returned the convolution (max |diff| %.3g)" % (dlabel, float(np.abs(np.asarray(ym).reshape(-1) - expm.reshape(-1)).max()) if np.size(ym) == expm.size else -1)))
     # adjoints: transposes of the relation with a conjugate on the fixed argument
     o = gint(rs, oshape)
@@ -187,27 +187,32 @@ def check_state(job):
             G, _ = linop_build.dense(A.H)
             if F is None or G is None or list(A.oshape) != list(oshape):
                 out.append((["C03"], "linop_shape", "%s advertised shape wrong" % name))
-            elif not np.allclose(G, F.conj().T, atol=1e-9):
+            elif not close_m(G, F.conj().T):
                 out.append((["C01"], "adjoint_matrix", "<Ax,y> != <x,A^H y> for %s" % name))
             else:
                 H2, _ = linop_build.dense(A.H.H, check_i=False)
-                if H2 is None or not np.allclose(H2, F, atol=1e-9):
+                if not close_m(H2, F):
                     out.append((["C01"], "adjoint_involution", "%s.H.H does not act like the original" % name))
                 Nn, _ = linop_build.dense(A.N, check_i=False)
-                if Nn is None or not np.allclose(Nn, F.conj().T @ F, atol=1e-9):
+                if not close_m(Nn, F.conj().T @ F):
                     out.append((["C04"], "normal_matrix", "%s.N differs from A^H A" % name))
                 # the adjoint-type class built directly with the same mode / strides / multi_channel, and its own adjoint
                 try:
                     B = (sp.linop.ConvolveDataAdjoint(list(dshape), filt, **kw) if name == "ConvolveData" else sp.linop.ConvolveFilterAdjoint(list(fshape), data, **kw))
                     Bm, _ = linop_build.dense(B, check_i=False)
                     BH, _ = linop_build.dense(B.H, check_i=False)
-                    if Bm is None or not np.allclose(Bm, F.conj().T, atol=1e-9):
+                    if not close_m(Bm, F.conj().T):
                         out.append((["C01"], "adjoint_matrix", "%sAdjoint(...) built directly is not the conjugate transpose of %s(...)" % (name, name)))
-                    if BH is None or not np.allclose(BH, F, atol=1e-9):
+                    if not close_m(BH, F):
                         out.append((["C01"], "adjoint_matrix", "%sAdjoint(...).H does not act like %s(...)" % (name, name)))
                 except Exception as e:
                     out.append((["C01"], "exception", "%sAdjoint raised %r" % (name, e)))
     return c, out
+
+
+def close_m(a, b):
+    """Matrices equal to 1e-9; a missing matrix or one of another shape is a disagreement (never an exception of the harness)."""
+    return a is not None and b is not None and np.shape(a) == np.shape(b) and bool(core.allclose(a, b, atol=1e-9))
 
 
 def run(ctx):
